@@ -60,6 +60,48 @@ def h_nli_sparse(ctx, method, computed):
                   info=dict(method=method, computed=list(computed)))
 
 
+def h_nli_sim_params(ctx, method):
+    """GGN methods configured by computed_number_of_channels: computing the NLI of one comb leaves the process-wide
+    simulation parameters exactly as they were, so a second comb with another channel count is computed as if it came first"""
+    import gnpy.core.science_utils as su
+    from gnpy.core.parameters import SimParams
+    symbolic_ctors(ctx)
+    SimParams.set_params({'nli_params': {'method': method, 'computed_number_of_channels': 2}, 'raman_params': {'flag': False}})
+
+    def snapshot():
+        return {k: v.to_json() for k, v in SimParams._shared_dict.items()}
+    fn = '_ggn_approx' if method == 'ggn_approx' else '_ggn_spectrally_separated'
+    orig = getattr(su.NliSolver, fn)
+    seen = []
+
+    def stub(cut_indices, spectral_info, fiber, srs, *a, **kw):
+        seen.append([int(i) for i in cut_indices])
+        return np.ones((len(cut_indices), spectral_info.number_of_channels)) * 1e-3
+    setattr(su.NliSolver, fn, staticmethod(stub))
+    try:
+        before = snapshot()
+        first_k = ctx.choice('channels of the first comb', [2, 4, 6])
+        second_k = ctx.choice('channels of the second comb', [2, 4, 6])
+        err = None
+        try:
+            su.NliSolver.compute_nli(make_si(ctx, first_k, tag='x', pmax=1e-2), None, None)
+            mid = snapshot()
+            su.NliSolver.compute_nli(make_si(ctx, second_k, tag='y', pmax=1e-2), None, None)
+        except Exception as e:      # noqa
+            err, mid = f'{type(e).__name__}: {e}', None
+        after = snapshot()
+    finally:
+        setattr(su.NliSolver, fn, orig)
+        elems.set_sim_params()
+    info = dict(method=method, first=first_k, second=second_k)
+    ctx.prove('both combs are computed', err is None, info=dict(info, error=err))
+    ctx.prove('simulation parameters unchanged by computing NLI', before == after and (mid is None or mid == before),
+              info=dict(info, before=before.get('nli_params'), after=after.get('nli_params')))
+    if err is None:
+        ctx.prove('channels under test of the second comb are those it gets when computed first (first and last channel)',
+                  seen[-1] == [0, second_k - 1], info=dict(info, channels=seen))
+
+
 def jobs(tier):
     ks = [1, 2, 3] if tier == 'quick' else [1, 2, 3, 4, 5]
     P = ('C02',)
